@@ -58,6 +58,8 @@ class Sphere(CenteredScatterer):
         try:
             if np.any(np.array(self.r) < 0):
                 raise InvalidScatterer(self, "radius is negative")
+            if np.any(np.isnan(np.array(self.r))):
+                raise InvalidScatterer(self, "radius is not a number")
         except TypeError:
             # Simplest solution to deal with spheres with a parameter or prior
             # as arguments, just don't check them. It might be worth doing some
@@ -110,6 +112,8 @@ class LayeredSphere(Sphere):
         try:
             if np.any(self.t < 0):
                 raise InvalidScatterer(self, "layer thickness is negative")
+            if np.any(np.isnan(self.t)):
+                raise InvalidScatterer(self, "layer thickness is not a number")
         except TypeError:
             # thicknesses given as priors are not checked
             pass
